@@ -648,6 +648,9 @@ impl UndoOperation for DeleteRow {
         if let Some(layer) = edit_state.get_buffer_mut().layers.get_mut(self.layer) {
             let mut deleted_row = Line::default();
             mem::swap(&mut self.deleted_row, &mut deleted_row);
+            if layer.lines.len() < self.line as usize {
+                layer.lines.resize(self.line as usize, Line::default());
+            }
             layer.lines.insert(self.line as usize, deleted_row);
             layer.set_height(layer.get_height() + 1);
             Ok(())
@@ -694,7 +697,9 @@ impl UndoOperation for InsertRow {
 
     fn undo(&mut self, edit_state: &mut EditState) -> EngineResult<()> {
         if let Some(layer) = edit_state.get_buffer_mut().layers.get_mut(self.layer) {
-            self.inserted_row = layer.lines.remove(self.line as usize);
+            if (self.line as usize) < layer.lines.len() {
+                self.inserted_row = layer.lines.remove(self.line as usize);
+            }
             layer.set_height(layer.get_height() - 1);
             Ok(())
         } else {
@@ -745,7 +750,14 @@ impl UndoOperation for DeleteColumn {
             let offset: usize = self.column as usize;
             for (i, ch) in self.deleted_chars.iter().enumerate() {
                 if let Some(ch) = ch {
-                    layer.lines[i].chars.insert(offset, *ch);
+                    if layer.lines.len() <= i {
+                        layer.lines.resize(i + 1, Line::default());
+                    }
+                    let chars = &mut layer.lines[i].chars;
+                    if chars.len() < offset {
+                        chars.resize(offset, AttributedChar::invisible());
+                    }
+                    chars.insert(offset, *ch);
                 }
             }
             layer.set_width(layer.get_width() + 1);
